@@ -47,6 +47,17 @@ package hamt
 //@ spec def shardEntries(s []github.com/ipld/go-codec-dagpb._PBLink, pad int, n int) int64 = sum(k, 0, n, ite(len(s[k].Name.v.x) > pad, int64(1), entriesBelow(s[k].Hash.x)))
 //@ spec def entriesOf(n *hamt._UnixFSHAMTShard) int64 = shardEntries(n._substrate.Links.x, padLen(n.data), len(n._substrate.Links.x))
 //@ typeinv hamt._UnixFSHAMTShard: length-memo-is-the-entry-count: self.cachedLength == -1 || self.cachedLength == entriesOf(self)
+
+// C17 (atomicity of the two memos, monitor reasoning): whenever the shard's mutex is free, the length
+// memo is unset or the entry count, and every cached child is a reification of the block its key
+// names; other holders never change a memo that is set. Acquiring the mutex forgets the guarded
+// fields and assumes exactly this; every release has to re-establish it and to respect the rely
+// relation as a guarantee -- so a value computed before the lock was re-acquired may be stored only
+// if it is the value any other holder would have stored.
+//@ lockinv hamt._UnixFSHAMTShard: memo-is-unset-or-the-entry-count: self.cachedLength == -1 || self.cachedLength == entriesOf(self)
+//@ lockinv hamt._UnixFSHAMTShard: cached-children-reify-their-links: self.shardCache != nil && (forall cl Ref :: maphas(self.shardCache, cl) ==> mapget(self.shardCache, cl) != nil && entriesOf(mapget(self.shardCache, cl)) == entriesBelow(cl))
+//@ inst lemma cached-children-reify-their-links: cl: cl
+//@ rely hamt._UnixFSHAMTShard: a-set-memo-is-never-changed: old(self.cachedLength) != -1 ==> self.cachedLength == old(self.cachedLength)
 //@ typeinv hamt._UnixFSHAMTShard: wfData(self.data) && 8 <= shardFanout(self) && shardFanout(self) <= 1024 && len(self.bitfield) * 8 == shardFanout(self) && self.shardCache != nil && self._substrate != nil
 //@ typeinv hamt._UnixFSShardedDir__ListItr: 0 <= self.maxPadLen && self.nd != nil && self._substrate != nil
 //@ typeinv hamt.hashBits: 0 <= self.consumed && self.consumed <= len(self.b) * 8 && 0 <= len(self.b) && len(self.b) <= (1 << 56)
@@ -107,9 +118,18 @@ package hamt
 // returned as the lookup's error.
 //@ props C05 C12 C13
 
+// entriesBelow(l) is DEFINED as the entry count of the shard reified from the block loaded through
+// link l (assumed clause below: same link, same block, same count -- content addressing).
+//@ func hamt.AttemptHAMTShardFromNode
+//@ prop C02 C17
+//@ ensures shard-of-a-loaded-block-has-that-blocks-entry-count: err == nil ==> result != nil && entriesOf(result) == entriesBelow(loadedFrom(nd))
+//@ assumed shard-of-a-loaded-block-has-that-blocks-entry-count
+//@ ensures err != nil ==> result == nil
+
 //@ func (*hamt._UnixFSHAMTShard).loadChild
-//@ ensures child-is-a-reification-of-the-linked-block: err == nil ==> entriesOf(result) == entriesBelow(pbLink.Hash.x)
-//@ assumed child-is-a-reification-of-the-linked-block
+//@ prop C17
+//@ ensures child-is-a-reification-of-the-linked-block: err == nil ==> result != nil && entriesOf(result) == entriesBelow(pbLink.Hash.x)
+//@ inst child-is-a-reification-of-the-linked-block: cl: pbLink.Hash.x
 //@ ensures last-load-is-the-result: lastLoad == old(lastLoad) || (err == nil && lastLoad == result)
 //@ ensures walked-is-monotone: forall w Ref :: old(walked(w)) ==> walked(w)
 //@ inst walked-is-monotone: w: w
